@@ -301,6 +301,12 @@ func classifyExitCond(ifi *ssa.If, taken bool) string {
 							return "done"
 						}
 						if st.Dir == types.RecvOnly {
+							// a signal channel (chan struct{}) closed by the stopper: the u.done idiom
+							if ch, ok := st.Chan.Type().Underlying().(*types.Chan); ok {
+								if es, ok := ch.Elem().Underlying().(*types.Struct); ok && es.NumFields() == 0 {
+									return "done"
+								}
+							}
 							return "recv-case"
 						}
 						return "send-case"
